@@ -57,7 +57,7 @@ P = D.DesignProperty(
     rule=("case = generated design spec in the reference domain (<= max_seqs solutions) plus an aux seed choosing the requested count "
           "per strategy from {1, n_ref-1, n_ref, n_ref+3}; non-trivial = n_ref >= 2; class has-copies = some printing has multiplicity > 1; "
           "distinct = distinct spec JSON"),
-    cfg_quick=CFG, n_quick=60, n_thorough=2000, case_limit=(15, 120),
+    cfg_quick=CFG, n_quick=60, n_thorough=700, case_limit=(15, 120),
     limits={"max_T": {"quick": 7, "thorough": 9}, "max_seqs": {"quick": 200, "thorough": 1500}, "always_exhaust": {"quick": 60, "thorough": 300}},
     assumptions=["vp/ref.py implements the documented semantics including multiplicities of weighted levels outside the crossing"])
 P.export(globals())
